@@ -21,8 +21,10 @@ def classify_value(v, md):
 def build_interp_program(md, observe_reg=None, land=None, observe_mem=False):
     """program that reaches the model's loop-head state at pc (depth 0) and executes the instruction there."""
     p = md['pc']; n = md['prog_len'] // 8
-    if md['sfi'] != 0: return None, 'model needs call depth > 0'
-    pre = b''; patches = []; fix_stack = []
+    depth = md['sfi']
+    if depth < 0 or depth > 8: return None, f'model call depth {depth} out of range'
+    # call depth k > 0 is reached by k local calls to the next instruction (call +0) in front of the register set-up
+    pre = insn(0x85, 0, 1, 0, 0) * depth; patches = []; fix_stack = []
     RANGE_OFF = lambda j: 64 + 128 * j
     kcls, kinfo = spec.classify(md['opc'])
     base_reg = None; addr_adj = 0; minus = None
@@ -41,6 +43,7 @@ def build_interp_program(md, observe_reg=None, land=None, observe_mem=False):
         if cv is None: pre += lddw(r, v)
         else:
             name, delta = cv; delta -= adj
+            if name == 'stack' and depth > 0: return None, 'stack-relative value at call depth > 0 is not replayable'
             if name == 'stack' and sub is None:       # stack_base + delta = r10 - 512 + delta
                 if not (-2**31 <= delta - 512 < 2**31): return None, 'stack-relative delta out of range'
                 pre += insn(0xbf, r, 10) + insn(0x07, r, 0, 0, delta - 512)
